@@ -4,6 +4,7 @@ import (
 	"fmt"
 	"os"
 	"path/filepath"
+	"sort"
 	"strings"
 	"time"
 
@@ -138,17 +139,29 @@ func c01(args []string) {
 		}
 		// failure modes and in-command group kills
 		ntargets := c.Pick(2, len(tasks))
+		// multi-output tasks first: which of their outputs gets finalized depends on map order
+		sort.SliceStable(tasks, func(a, b int) bool { return len(tasks[a].Outs) > len(tasks[b].Outs) })
 		for k := 0; k < ntargets && k < len(tasks); k++ {
-			t := tasks[(k*7+i)%len(tasks)]
+			t := tasks[k]
+			if k > 0 {
+				t = tasks[(k*7+i)%len(tasks)]
+			}
 			modes := cmdFailModes
 			if t.InProc {
 				modes = goFailModes
 			}
 			for _, m := range modes {
-				if !c.Thorough() && rng.Intn(2) == 0 {
+				always := k == 0 && (m == "omit-output" || m == "wrong-place" || m == "sigkill-shell" || m == "exit-after-write")
+				if !c.Thorough() && !always && rng.Intn(2) == 0 {
 					continue
 				}
-				cases = append(cases, &faultCase{tc: tc, label: "fail=" + m, key: t.Key, opts: map[string]string{"fail": m}, cfg: cfg()})
+				reps := 1
+				if len(t.Outs) > 1 && (m == "omit-output" || m == "wrong-place") {
+					reps = 4 // the order in which outputs are checked / finalized is a map order
+				}
+				for r := 0; r < reps; r++ {
+					cases = append(cases, &faultCase{tc: tc, label: "fail=" + m, key: t.Key, opts: map[string]string{"fail": m}, cfg: cfg()})
+				}
 			}
 			for _, ph := range []string{"start", "mid", "end"} {
 				cases = append(cases, &faultCase{tc: tc, label: "killgroup=" + ph, key: t.Key, opts: map[string]string{"killgroup": ph, "size": "9000"}, cfg: cfg()})
